@@ -182,6 +182,23 @@ def run(ctx):
             run_case(cls, acls, init, [("del", i)])
             run_case(cls, acls, init, [("insert", i, 7)])
             run_case(cls, acls, init, [("pop", i)])
+        # indices beyond the C integer ranges: an out-of-range integer index is an IndexError, as for a list (get / set / del); list.pop and
+        # list.insert raise OverflowError there only because CPython parses their argument as a C ssize_t - the property asks for IndexError
+        # (pop) and list.insert's clamping carries no such limit, so for those two the requirement is stated directly
+        for cls2, acls2 in classes:
+            for i in (2 ** 31, 2 ** 63 - 1, 2 ** 63, 2 ** 63 + 1, 2 ** 64 - 1, 2 ** 64, 10 ** 30, -2 ** 31 - 1, -2 ** 63, -2 ** 63 - 1, -2 ** 64, -10 ** 30):
+                run_case(cls2, acls2, init, [("get", i)])
+                run_case(cls2, acls2, init, [("set", i, 7)])
+                run_case(cls2, acls2, init, [("del", i)])
+                for nm, f in (("pop", lambda a_: a_.pop(i)), ("insert", lambda a_: a_.insert(i, cls2.from_ticks(7)))):
+                    a_ = acls2([cls2.from_ticks(t) for t in init])
+                    o = outcome(lambda: f(a_))
+                    want_state = list(init) if nm == "pop" else (([7] + list(init)) if i < 0 else (list(init) + [7]))
+                    ok = (o[0] == "err" and o[1] == "IndexError") if nm == "pop" else o[0] == "ok"
+                    ctx.case(("huge-index", acls2.__name__, nm, i > 0, len(init)))
+                    if not ok or [x.ticks for x in a_] != want_state:
+                        ctx.violation(what="index beyond the C integer range", cls=acls2.__name__, op=f"{nm}({i})", initial=str(init), observed=f"{show(o)[:120]} state={[x.ticks for x in a_]}",
+                                      required=("IndexError, array unchanged" if nm == "pop" else f"inserted at the {'front' if i < 0 else 'end'}: {want_state}"))
     ctx.exhaustive = full
     # ---- seeded operation sequences, 128-bit elements ---------------------------------------------------------------------
     big = [I128_MIN, I128_MAX, 0, 1, -1, 1 << 64, -(1 << 64), (1 << 64) - 1]
